@@ -13,7 +13,7 @@ CASE_TIMEOUT = {"quick": 900, "thorough": 3000}
 
 
 def enumerate_cases(tier, seed):
-    yield from _gen.cases(tier, seed, long=True)
+    yield from _gen.cases(tier, seed)
     yield from _gen.corpus_cases(tier, seed)
 
 
